@@ -3,4 +3,6 @@ pub mod bits;
 pub mod cprenc;
 pub mod enc;
 pub mod ev;
+pub mod gen;
+pub mod jsonck;
 pub mod geo_gen;
